@@ -42,7 +42,7 @@ CONSTANTS
     OutSet,        \* where the output directory lives: "t" (W/t/out) | "w" (W/out)
     SaveAsSet,     \* "none" | "file" | "dir"
     ContainMode,   \* "ancestry" | "textual"
-    DestMode,      \* "normalised" | "joined"
+    DestMode,      \* "normalised" | "joined" | "unstripped" (a leading '/' of save_as survives the factory)
     DenyFactories, \* factories explored by the DenyList sub-model
     DenyMax        \* entries per deny list
 
@@ -215,15 +215,17 @@ SingleItem    == {"simple_file", "simple_command", "command_with_args"}
 NItems(f)     == IF f \in SingleItem THEN 1 ELSE 3
 
 ItemNames == <<"ab", "b", "c">>
+FileWords == << <<"/x/ab">>, <<"/x/my", "b">>, <<"/x/c">> >>      \* the second file name contains a blank
+FileBase  == <<"ab", "my b", "c">>
 Item(f, i) ==
-    CASE f \in FileFactories        -> [t |-> "file", w |-> <<"/x/" \o ItemNames[i]>>]
+    CASE f \in FileFactories        -> [t |-> "file", w |-> FileWords[i]]
       [] f = "container_execute"   -> [t |-> "cmd", w |-> <<"/usr/bin/podman", "exec", "k" \o ItemNames[i], "ls", "-l">>]
       [] f = "container_collect"   -> [t |-> "cmd", w |-> <<"/usr/bin/podman", "exec", "k" \o ItemNames[i], "cat", "/x/" \o ItemNames[i]>>]
       [] OTHER                     -> [t |-> "cmd", w |-> <<"/bin/echo", ItemNames[i]>>]
 
 (* Entries a user may write.  Distractors: a textual (not word-wise) prefix, *)
 (* a longer command, an identifier that names no component.                 *)
-FileEntries(f) == {Item(f, i).w : i \in 1..NItems(f)} \cup {<<"/x/a">>, <<"nosuchspec">>}
+FileEntries(f) == {Item(f, i).w : i \in 1..3} \cup {<<"/x/a">>, <<"/x/my">>, <<"nosuchspec">>}
 CmdEntries(f)  ==
     {Item(f, i).w : i \in 1..NItems(f)} \cup
     {<<Item(f, 1).w[1]>>, SubSeq(Item(f, 1).w, 1, Len(Item(f, 1).w) - 1),
@@ -258,19 +260,58 @@ DeniedInternal(tr, it) ==
 Small(S) == {X \in SUBSET S : Cardinality(X) <= 2}
 Tiny(S)  == {X \in SUBSET S : Cardinality(X) <= 1}
 Upto(S)  == {X \in SUBSET S : Cardinality(X) <= DenyMax}
+(* save_as forms a spec author may write for each factory (documented: a    *)
+(* relative path, "any starting '/' will be removed"; a trailing '/' means  *)
+(* a directory for the file factories).                                     *)
+SaveAsForms(f) ==
+    CASE f \in {"simple_file", "first_file", "simple_command", "command_with_args"} -> {"file", "dir", "absfile", "absdir"}
+      [] f \in {"glob_file", "foreach_collect"} -> {"dir", "absdir", "bare"}
+      [] OTHER -> {}
+
+Picks(f) == IF f = "simple_file" THEN {1, 2} ELSE {1}
+DCase(f, pk, fe, ce, sa) == [factory |-> f, comp |-> "", pick |-> pk, files |-> fe, commands |-> ce, comps |-> {},
+                            saveas |-> sa]
 DenyCases ==
-    UNION { { [factory |-> f, comp |-> "", files |-> fe, commands |-> {}, comps |-> {}]
-        : fe \in Upto(FileEntries(f)) } : f \in DenyFactories \cap FileFactories } \cup
-    UNION { { [factory |-> f, comp |-> "", files |-> {}, commands |-> ce, comps |-> {}]
-        : ce \in Upto(CmdEntries(f)) } : f \in DenyFactories \ FileFactories } \cup
-    { [factory |-> "spec", comp |-> n, files |-> fe, commands |-> ce, comps |-> cs]
+    UNION { { DCase(f, pk, fe, {}, "none") : fe \in Upto(FileEntries(f)), pk \in Picks(f) }
+                : f \in DenyFactories \cap FileFactories } \cup
+    UNION { { DCase(f, 1, {}, ce, "none") : ce \in Upto(CmdEntries(f)) } : f \in DenyFactories \ FileFactories } \cup
+    UNION { { DCase(f, pk, {}, {}, sa) : sa \in SaveAsForms(f), pk \in Picks(f) } : f \in DenyFactories } \cup
+    { [factory |-> "spec", comp |-> n, pick |-> 1, files |-> fe, commands |-> ce, comps |-> cs, saveas |-> "none"]
         : n \in (IF DenyFactories = {} THEN {} ELSE KnownSpecs),
           fe \in Tiny({<<"hosts">>, <<"date">>, <<"/etc/hosts">>, <<"/etc/fstab">>, <<"nosuchspec">>}),
           ce \in Tiny({<<"date">>, <<"fstab">>, <<"/bin/date">>, <<"/bin">>}),
           cs \in Tiny({FullName("hosts"), FullName("fstab"), FullName("date"), "insights.nosuch.component"}) }
 
 CaseItems(c) == IF c.factory = "spec" THEN <<SpecItem(c.comp)>>
+                ELSE IF c.factory \in SingleItem THEN <<Item(c.factory, c.pick)>>
                 ELSE [i \in 1..NItems(c.factory) |-> Item(c.factory, i)]
+
+(* Where the serialised copy of item i of a factory goes, in the deny-list  *)
+(* world (W2/{root, out}): out/data (+) prefix (+) rel(save_as, item).      *)
+ItemIdx(c, i) == IF c.factory \in SingleItem THEN c.pick ELSE i
+ItemRel(c, i) ==
+    IF c.factory = "spec" THEN (IF SpecItem(c.comp).t = "file" THEN <<"etc", c.comp>> ELSE <<c.comp>>)
+    ELSE IF c.factory \in FileFactories THEN <<"x", FileBase[ItemIdx(c, i)]>>
+    ELSE <<"cmd" \o ToString(i)>>                                   \* the mangled command line
+FPrefix(c) ==
+    CASE c.factory \in {"container_execute", "container_collect"} -> <<"insights_containers">>
+      [] c.factory \in FileFactories -> <<>>
+      [] c.factory = "spec" /\ SpecItem(c.comp).t = "file" -> <<>>
+      [] OTHER -> <<"insights_commands">>
+(* what the factory hands to the provider after its own normalisation       *)
+NormSaveAs(f, sa) ==
+    LET abs == DestMode = "unstripped" /\ sa \in {"absfile", "absdir"} IN
+    CASE f \in {"glob_file", "foreach_collect"} -> [abs |-> abs, dir |-> TRUE, segs |-> <<"sv">>]
+      [] f \in {"simple_command", "command_with_args"} ->
+            [abs |-> abs, dir |-> FALSE, segs |-> IF sa \in {"file", "absfile"} THEN <<"sv", "x">> ELSE <<"sv">>]
+      [] OTHER -> [abs |-> abs, dir |-> sa \in {"dir", "absdir"},
+                   segs |-> IF sa \in {"file", "absfile"} THEN <<"sv", "x">> ELSE <<"sv">>]
+FactoryDst(c, i) ==
+    IF c.saveas = "none" THEN <<"out", "data">> \o FPrefix(c) \o ItemRel(c, i)
+    ELSE LET n == NormSaveAs(c.factory, c.saveas)
+             rel == IF n.dir THEN Append(n.segs, Last(ItemRel(c, i))) ELSE n.segs
+         IN IF n.abs THEN <<"/">> \o rel                            \* os.path.join drops everything before it
+            ELSE <<"out", "data">> \o FPrefix(c) \o rel
 
 NoDeny == [phase |-> "off"]
 
@@ -317,7 +358,7 @@ InitDeny ==
     /\ yielded = FALSE /\ written = {}
     /\ \E c \in DenyCases :
          dn = [phase |-> "cfg", c |-> c, tr |-> [files |-> {}, commands |-> {}, disabled |-> {}],
-               pos |-> 1, acc |-> {}]
+               pos |-> 1, acc |-> {}, wr |-> {}]
 
 Configure ==
     /\ sub = "deny" /\ dn.phase = "cfg"
@@ -333,7 +374,8 @@ Attempt ==
          ELSE IF DeniedInternal(dn.tr, its[dn.pos])
            THEN dn' = [dn EXCEPT !.pos = @ + 1]                       \* BlacklistedSpec: element skipped
            ELSE dn' = [dn EXCEPT !.pos = IF c.factory = "first_file" THEN Len(its) + 1 ELSE @ + 1,
-                                  !.acc = @ \cup {dn.pos}]            \* Open / Exec
+                                  !.acc = @ \cup {dn.pos},           \* Open / Exec
+                                  !.wr = @ \cup {FactoryDst(c, dn.pos)}]   \* Persist (the observer)
     /\ UNCHANGED <<sub, lay, path, w, yielded, written>>
 
 NextDeny == Configure \/ Attempt
@@ -355,6 +397,9 @@ WritesUnderOut ==
 DenyRespected ==
     sub = "deny" /\ dn.phase # "cfg" =>
         \A i \in dn.acc : ~DeniedByUser(dn.c, dn.c.comp, CaseItems(dn.c)[i])
+
+FactoryWritesUnderOut ==
+    sub = "deny" /\ dn.phase # "cfg" => \A loc \in dn.wr : IsPrefix(<<"out">>, loc)
 
 (* Sanity of the resolver itself.                                           *)
 StepAgreesWithRun ==              \* the action system and the recursive function are the same walk
